@@ -479,7 +479,8 @@ def run(ctx):
         if st1 != "ok" or st2 != "ok" or r1["trace"] != r2["trace"] or r1["results"] != r2["results"]:
             raise RuntimeError("scheduler is not deterministic on workload %s" % wname)
         base_points[wname] = r1["points"]
-        mid = r1["points"][len(r1["points"]) // 3]
+        cand = [p for p in r1["points"] if any(a != p[1] and p[2] >> a & 1 for a in range(len(names)))]
+        mid = cand[len(cand) // 3]
         alt = next(a for a in range(len(names)) if a != mid[1] and mid[2] >> a & 1)
         sa, ra = forked(exec_schedule, names, {mid[0]: alt}, LINE_FILES, True)
         sb, rb = forked(exec_schedule, names, {mid[0]: alt}, LINE_FILES, True)
